@@ -22,3 +22,17 @@ Definition program_timeout (kw cli lower : option nat) : option nat :=
 
 Definition pcorr (c : pcase) : bool :=
   p_num c && opt_nat_eqb (program_timeout (p_kw c) (p_cli c) (p_lower c)) (p_got c).
+
+(** The stdin worker's loop after the command has finished (F-C14e): the real
+    [Runner.handle_stdin] is run on a scripted input stream, [program_finished] is set
+    during a chosen iteration; [d_after] = what the reads deliver from that iteration
+    on (then EOF), [d_iters] = iterations observed from then on (readiness probes),
+    [d_fwd] = units written to the command's stdin meanwhile, [d_closed] = its stdin
+    was closed by the end. *)
+From InvokeVerif Require Export Model.StdinDrainModel.
+Record dcase := mkd { d_after : list rd; d_iters : nat; d_fwd : nat; d_closed : bool }.
+
+Definition dcorr (c : dcase) : bool :=
+  Nat.eqb (iterations_after_finish (d_after c)) (d_iters c) &&
+  Nat.eqb (forwarded_after_finish (d_after c)) (d_fwd c) &&
+  Bool.eqb (closes_after_finish (d_after c)) (d_closed c).
